@@ -83,7 +83,7 @@ public:
   vector<vector<double>> A; // SPD (kind 0, 2) or rows q_k (kind 1)
   vector<double> w; // weights (kind 1) / quartic coefficients (kind 2)
   vector<double> m; // minimiser
-  double c, mu, kappa;
+  double c, mu, kappa, lmin; // lmin: smallest eigenvalue of a quadratic (overall scale)
   bool d1, d2;
   // recording
   bool record;
@@ -92,8 +92,10 @@ public:
   bool capHit;
   double kmax = 1e3; // upper end of the condition numbers drawn for this objective
   double smax = 1.5; // upper end of the scale factors of the exp family
+  bool plain = false; // minimiser within [-1,1]^n and minimum value 1 (relative and absolute tolerances coincide): the convergence bound is then 1000 sqrt(tol) in absolute terms
+  bool forceSmall = false; // quadratic with eigenvalues well below 1 and a random rotation (strongly correlated parameters)
 
-  HFn(size_t n_) : AbstractParametrizable(""), n(n_), kind(0), A(), w(), m(), c(0), mu(0), kappa(1), d1(true), d2(true), record(false), sink(nullptr), evals(0), cap(1000000), capHit(false)
+  HFn(size_t n_) : AbstractParametrizable(""), n(n_), kind(0), A(), w(), m(), c(0), mu(0), kappa(1), lmin(1), d1(true), d2(true), record(false), sink(nullptr), evals(0), cap(1000000), capHit(false)
   {
     for (size_t i = 0; i < n; ++i) addParameter_(new bpp::Parameter("x" + std::to_string(i), 0.));
   }
@@ -397,6 +399,19 @@ public:
   }
 };
 
+// meta-optimiser: some sub-optimiser was last run with a tolerance coarser than the one requested from the
+// meta-optimiser itself (1e-6 relative slack for the rounding of its 10^x schedule)
+static bool metaCoarse(const bpp::OptimizerInterface* o)
+{
+  auto* mo = dynamic_cast<bpp::MetaOptimizer*>(const_cast<bpp::OptimizerInterface*>(o));
+  if (!mo) return false;
+  double req = mo->getStopCondition()->getTolerance();
+  bpp::MetaOptimizerInfos& inf = mo->optimizers();
+  for (size_t i = 0; i < inf.getNumberOfOptimizers(); ++i)
+    if (!(inf.optimizer(i).getStopCondition()->getTolerance() <= req * (1. + 1e-6))) return true;
+  return false;
+}
+
 // ---------------------------------------------------------------- listener seam
 class Listener : public bpp::OptimizationListener
 {
@@ -407,7 +422,7 @@ public:
   void optimizationStepPerformed(const bpp::OptimizationEvent& ev) override
   {
     const bpp::OptimizerInterface* o = ev.getOptimizer();
-    sc->add(Ev("StepDone").i("nb", static_cast<long>(o->getNumberOfEvaluations())).b("tol", o->isToleranceReached()).r("fv", o->getFunctionValue()));
+    sc->add(Ev("StepDone").i("nb", static_cast<long>(o->getNumberOfEvaluations())).b("tol", o->isToleranceReached()).r("fv", o->getFunctionValue()).b("itc", metaCoarse(o)));
   }
   bool listenerModifiesParameters() const override { return false; }
 };
@@ -454,8 +469,8 @@ static void makeObjective(Rng& g, HFn& f, int kind)
   size_t n = f.n;
   f.kind = kind;
   f.m.resize(n);
-  for (size_t i = 0; i < n; ++i) f.m[i] = (g.unit() * 2. - 1.) * logUniform(g, 0.1, 10.);
-  f.c = g.chance(1, 3) ? 0. : (g.unit() * 2. - 1.) * logUniform(g, 0.01, 100.);
+  for (size_t i = 0; i < n; ++i) f.m[i] = (g.unit() * 2. - 1.) * (f.plain ? 1. : logUniform(g, 0.1, 10.));
+  f.c = f.plain ? 1. : g.chance(1, 3) ? 0. : (g.unit() * 2. - 1.) * logUniform(g, 0.01, 100.);
   if (kind == 0 || kind == 2)
   {
     // eigenvalues in [1, kappa], kappa log-uniform in [1, 1e3]; rotation random (or axis-aligned)
@@ -465,7 +480,13 @@ static void makeObjective(Rng& g, HFn& f, int kind)
     for (size_t i = 0; i < n; ++i) ev[i] = logUniform(g, 1., kappa);
     ev[0] = 1.;
     if (n > 1) ev[n - 1] = kappa;
-    vector<vector<double>> q = g.chance(1, 5) ? vector<vector<double>>() : randomOrtho(g, n);
+    if (n == 1) f.kappa = 1.;
+    // overall scale: eigenvalues sc * [1, kappa], sc in [0.01, 100] half of the time (eigenvalues below 1: an inverse
+    // Hessian with large entries; above 1: steep objectives)
+    f.lmin = (kind == 0 && g.coin()) ? logUniform(g, 0.01, 100.) : 1.;
+    if (f.forceSmall) f.lmin = logUniform(g, 0.01, 0.3);
+    for (size_t i = 0; i < n; ++i) ev[i] *= f.lmin;
+    vector<vector<double>> q = (g.chance(1, 5) && !f.forceSmall) ? vector<vector<double>>() : randomOrtho(g, n);
     f.A.assign(n, vector<double>(n, 0.));
     for (size_t i = 0; i < n; ++i)
       for (size_t j = 0; j <= i; ++j)
@@ -529,6 +550,7 @@ public:
   std::map<string, Stats> stats;
   string only;
   bool quadOnly = false;
+  int series = 0; // 0 main, 2 simplex in dimension 5-6 at tight tolerances, 3 re-use of one object on correlated quadratics with small eigenvalues
   bool extra1d = false; // scenario of the extra one-dimensional series: objective mostly elsewhere at init(), tiny budgets
   bool steer = true; // keep the main scenarios out of the regions of the known findings (probes switch it off)
 
@@ -559,6 +581,8 @@ public:
   {
     bool oneD = (opt == "Brent" || opt == "GoldenSection" || opt == "Newton1D");
     size_t n = oneD ? 1 : 1 + g.below(6);
+    if (series == 2) n = 5 + g.below(2);
+    if (series == 3) n = 2 + g.below(5);
     // objective family: quadratic half of the time; the Newton-type optimisers see the families whose
     // curvature degenerates far from the minimiser more often (their step-halving give-up paths)
     int kind = 0;
@@ -573,11 +597,14 @@ public:
     // known finding C10-simplex-premature-stop: the simplex method on quadratics with condition number >= 50 in
     // dimension >= 5; the main scenarios stay below, the probe goes there
     if (steer && opt == "DownhillSimplex" && n >= 5) f->kmax = 49.;
+    if (series == 2 || series == 3) kind = 0;
+    if (series == 2) f->plain = true;
+    if (series == 3) f->forceSmall = true;
     makeObjective(g, *f, kind);
     Scenario sc;
     // start
     vector<double> start(n);
-    for (size_t i = 0; i < n; ++i) start[i] = f->m[i] + (g.coin() ? 1. : -1.) * logUniform(g, 0.01, 10.);
+    for (size_t i = 0; i < n; ++i) start[i] = f->m[i] + (g.coin() ? 1. : -1.) * logUniform(g, series == 2 ? 3. : 0.01, 10.); // series 2: far starts
     // box: interval constraints containing start and minimiser
     Box& bx = sc.box;
     bx.has.assign(n, 0);
@@ -587,6 +614,7 @@ public:
     bx.hi.assign(n, 0.);
     bool anyBox = false, inactive = true;
     int boxStyle = static_cast<int>(g.below(4)); // 0 none, 1 wide, 2 mixed, 3 tight
+    if (series == 2 || series == 3) boxStyle = static_cast<int>(g.below(2));
     for (size_t i = 0; i < n; ++i)
     {
       if (boxStyle == 0 || (boxStyle == 2 && g.coin())) continue;
@@ -617,6 +645,8 @@ public:
     const string pols[3] = {bpp::AutoParameter::CONSTRAINTS_AUTO, bpp::AutoParameter::CONSTRAINTS_IGNORE, bpp::AutoParameter::CONSTRAINTS_KEEP};
     string pol = pols[g.below(3)];
     int tk = 4 + static_cast<int>(g.below(7)); // tolerance 1e-4 .. 1e-10
+    if (series == 2) tk = 9 + static_cast<int>(g.below(2));
+    if (series == 3) tk = 7 + static_cast<int>(g.below(4));
     double tol = std::pow(10., -tk);
     // budget: mostly ample, sometimes binding
     static const long budgets[] = {1, 2, 3, 4, 5, 7, 10, 20, 50, 200};
@@ -625,6 +655,16 @@ public:
     if (opt == "NewtonBacktrack" && g.coin()) maxEval = budgets[g.below(5)];
     if (extra1d && g.chance(2, 5)) maxEval = budgets[g.below(5)];
     int hist = static_cast<int>(g.below(10)); // history shape
+    if (series == 2)
+    {
+      hist = 8;
+      maxEval = 200000; // the run must stay below a tenth of its budget for the convergence clause to apply
+    }
+    if (series == 3)
+    {
+      hist = 3; // converged run, then init() of the same object at a far start
+      maxEval = 20000;
+    }
     bool early = g.chance(1, 5);
     bool multi = !(oneD || opt == "NewtonBacktrack" || opt == "Meta");
     // block-wise use of one optimiser object: init() on sub-lists of the parameters (same size / other names, other size, back)
@@ -633,6 +673,7 @@ public:
     bool rebox = (hist == 7 && !(opt == "NewtonBacktrack" || opt == "Brent" || opt == "GoldenSection"));
 
     string cfg;
+    long metaN = 0; // number of precision stages of a meta-optimiser (0: not one)
     f->sink = &sc.sink;
     f->cap = 60 * maxEval + 20000;
     // where the objective sits when init() is called: at the start (what most code does), at its minimiser
@@ -731,7 +772,7 @@ public:
     {
       static const char* inner[] = {"Bfgs", "ConjugateGradient", "Powell", "DownhillSimplex", "Simple", "SimpleNewton"};
       auto desc = std::unique_ptr<bpp::MetaOptimizerInfos>(new bpp::MetaOptimizerInfos());
-      unsigned nn = 1 + static_cast<unsigned>(g.below(3));
+      unsigned nn = 1 + static_cast<unsigned>(g.below(4));
       // known finding: the simplex method as above
       bool simplexOk = !steer || n <= 4 || f->kappa < 50.;
       size_t groups = (n >= 2 && g.coin()) ? 2 : 1;
@@ -753,6 +794,7 @@ public:
                            ty);
       }
       cfg += "/n" + std::to_string(nn);
+      metaN = nn;
       o = std::make_shared<bpp::MetaOptimizer>(f, std::move(desc), nn);
     }
     else o = makeInner(opt, f);
@@ -768,7 +810,7 @@ public:
     {
       Obj o;
       o.kv("e", "Reset").kv("opt", opt).kv("dim", n).kv("kind", KINDS[kind]);
-      o.kv("pol", pol).kv("max", maxEval).kv("tk", tk).kv("inact", inactive).kv("sc", id).kv("cfg", cfg).kv("hist", hist).kv("kap", static_cast<long>(f->kappa + 0.5)).kv("fat", fat < 4 ? "start" : fat < 7 ? "min" : "else").kv("full", !blocks);
+      o.kv("pol", pol).kv("max", maxEval).kv("tk", tk).kv("inact", inactive).kv("sc", id).kv("cfg", cfg).kv("hist", hist).kv("kap", static_cast<long>(f->kappa + 0.5)).kv("fat", fat < 4 ? "start" : fat < 7 ? "min" : "else").kv("full", !blocks).kv("mn", metaN);
       Arr b;
       for (size_t i = 0; i < n; ++i) b.add(Arr().add(bx.has[i] != 0).add(bx.il[i] != 0).add(bx.iu[i] != 0));
       o.kv("box", b);
@@ -901,7 +943,7 @@ public:
         double fv = o->getFunctionValue();
         double re = f->evalAt(x);
         bool tolr = o->isToleranceReached();
-        // E4: sup-norm distance to the minimiser in units of sqrt(tolerance * max(1,|f*|)) * max(1, |m|_inf), x1000, capped
+        // E4: sup-norm distance to the minimiser in units of sqrt(tolerance * max(1,|f*|) / min(1, lambda_min)) * max(1, |m|_inf), x1000, capped
         double d = 0, ms = 1.;
         for (size_t i = 0; i < n; ++i)
         {
@@ -909,11 +951,21 @@ public:
           ms = std::max(ms, std::abs(f->m[i]));
         }
         double fs = std::max(1., std::abs(f->c)); // |f*|: several stop conditions are relative to |f|
-        double q = d / (std::sqrt(tol * fs) * ms);
+        double q = d / (std::sqrt(tol * fs / std::min(1., f->lmin)) * ms);
+        // E4: gap f(x) - f* (for a quadratic 0.5 y'Ay, no cancellation) in units of tolerance * max(1,|f*|) * condition number
+        double gap = re - f->c;
+        if (kind == 0)
+        {
+          gap = 0;
+          for (size_t i = 0; i < n; ++i)
+            for (size_t j = 0; j < n; ++j) gap += 0.5 * (x[i] - f->m[i]) * f->A[i][j] * (x[j] - f->m[j]);
+        }
+        double gq = gap / (tol * fs * f->kappa);
+        long gi = (gq != gq || gq > 1e6) ? 1000000000L : static_cast<long>(std::ceil(gq * 1000.));
         long qi = (q != q || q > 1e6) ? 1000000000L : static_cast<long>(std::ceil(q * 1000.));
         bool cv = (kind == 0) && inactive && tolr && opt != "NewtonBacktrack" && static_cast<long>(o->getNumberOfEvaluations()) < maxEval; // statistics only
         e.r("ret", ret).r("fv", fv).r("re", re).iv("feas", bx.codes(x));
-        e.i("nb", static_cast<long>(o->getNumberOfEvaluations())).b("tol", tolr).i("q", qi);
+        e.i("nb", static_cast<long>(o->getNumberOfEvaluations())).b("tol", tolr).i("q", qi).i("g", gi);
         if (cv)
         {
           ++st.conv;
@@ -991,7 +1043,7 @@ public:
           vector<double> s2(n);
           for (size_t i = 0; i < n; ++i)
           {
-            s2[i] = f->m[i] + (g.coin() ? 1. : -1.) * logUniform(g, 0.01, 10.);
+            s2[i] = f->m[i] + (g.coin() ? 1. : -1.) * logUniform(g, series == 3 ? 2. : 0.01, 10.);
             if (bx.has[i] && !(bx.lo[i] < s2[i] && s2[i] < bx.hi[i])) s2[i] = bx.lo[i] + (0.05 + 0.9 * g.unit()) * (bx.hi[i] - bx.lo[i]);
           }
           if (doInit(s2)) doOptimize(true, s2);
@@ -1075,7 +1127,7 @@ public:
     {
       Obj o;
       o.kv("e", "Reset").kv("opt", inward ? "BracketInward" : "BracketOutward").kv("dim", 1).kv("kind", KINDS[kind]);
-      o.kv("pol", constrained ? "auto" : "ignore").kv("max", 0).kv("tk", 0).kv("inact", true).kv("sc", id).kv("full", true);
+      o.kv("pol", constrained ? "auto" : "ignore").kv("max", 0).kv("tk", 0).kv("inact", true).kv("sc", id).kv("full", true).kv("mn", 0);
       o.kv("box", Arr().add(Arr().add(bx.has[0] != 0).add(bx.il[0] != 0).add(bx.iu[0] != 0)));
       tracer().emit(o);
       tracer().flush();
@@ -1174,6 +1226,19 @@ int main(int argc, char** argv)
   }
   // extra series for the cheap one-dimensional optimisers: the objective sits at its minimiser / anywhere when
   // init(start) is called (as after an earlier run), budgets of 1..5 evaluations in 40 % of the runs
+  // extra series 2: the simplex method in dimension 5-6 on well-conditioned quadratics at tolerances 1e-9 / 1e-10
+  // (minimiser in [-1,1]^n, minimum value 1); extra series 3: BFGS / conjugate gradient / Powell objects used twice on a
+  // strongly correlated quadratic with eigenvalues below 1 (converged run, then init() at a far start)
+  long n2 = only.empty() ? n / 16 : 0, n3 = only.empty() ? n / 8 : 0;
+  static const char* REUSE[] = {"Bfgs", "ConjugateGradient", "Bfgs", "Powell"};
+  for (long id = 2 * n + nbr; id < 2 * n + nbr + n2 + n3; ++id)
+  {
+    if (one >= 0 && id != one) continue;
+    d.g = Rng(base ^ (static_cast<uint64_t>(id + 1) * 0x9e3779b97f4a7c15ULL));
+    d.series = (id < 2 * n + nbr + n2) ? 2 : 3;
+    d.runOne(d.series == 2 ? "DownhillSimplex" : REUSE[(id - 2 * n - nbr - n2) % 4], id);
+  }
+  d.series = 0;
   static const char* ONED[] = {"GoldenSection", "Brent", "Newton1D", "NewtonBacktrack"};
   long nx = only.empty() ? n / 2 : 0;
   d.extra1d = true;
